@@ -113,9 +113,9 @@ Definition gparam_ok_C02 (g : gparam) : bool :=
   | _ => false
   end.
 
-Definition plain_name_C02 (n : str) : bool := negb (endswith (L "kwargs") n || startswith (L "**") n).
-
-Definition param_ok_C02 (kv : str * gparam) : bool := plain_name_C02 (fst kv) && gparam_ok_C02 (snd kv).
+(* the name plays no part at the AST level (C02_domain keeps a leading star out; a name ending in kwargs only
+   changes which branch of _set_name_and_type leaves the entry alone) *)
+Definition param_ok_C02 (kv : str * gparam) : bool := gparam_ok_C02 (snd kv).
 
 (* the return entry: as a parameter, without default (a return default is emitted through the parse table) *)
 Definition return_ok_C02 (r : fld gparam) : bool :=
